@@ -168,6 +168,7 @@ func genBase(r *simrt.Rand, name string, faulty bool) *Plan {
 	p.Codec = codecs[r.Intn(len(codecs))]
 	p.Header = headers[r.Intn(len(headers))]
 	p.ByName = r.Chance(1, 3)
+	p.Mixed = p.ByName && r.Chance(1, 2)
 	if p.Header == "" && p.Codec != "bytes" && r.Chance(1, 4) {
 		p.Plain = true // the three-argument Listen/Dial forms (registered network and codec names)
 	}
